@@ -154,7 +154,9 @@ func baseType(ct string) string {
 }
 
 // judgeResponse evaluates a wire response against the documented response of its status.
-func (d *oaDoc) judgeResponse(wr *rt.WireReq, w *rt.WireResp) (errs []string, undecided string) {
+// meant: the media type under which the design documents this kind of response ("" = unknown); when the document
+// has an entry for it the body is judged against THAT entry and a different Content-Type is reported as such.
+func (d *oaDoc) judgeResponse(wr *rt.WireReq, w *rt.WireResp, meant string) (errs []string, undecided string) {
 	u, err := url.Parse(wr.URL)
 	if err != nil {
 		return nil, "url"
@@ -189,9 +191,17 @@ func (d *oaDoc) judgeResponse(wr *rt.WireReq, w *rt.WireResp) (errs []string, un
 				}
 			}
 		}
+		sort.Strings(keys)
+		if mc, ok := content[meant].(map[string]any); ok && meant != "" && baseType(meant) != actual {
+			// the entry meant for this response exists under another media type than the one served
+			found, schema = true, mc["schema"]
+			if len(w.Body) > 0 {
+				errs = append(errs, "content-type@header: "+actual+" served, documented "+meant)
+			}
+		}
 		if !found {
 			if len(w.Body) > 0 {
-				errs = append(errs, "content-type@header: "+actual+" not among documented "+strings.Join(keys, ","))
+				errs = append(errs, "content-type@header: "+actual+" served, documented "+strings.Join(keys, ","))
 			}
 			if len(content) == 1 {
 				for _, c := range content {
@@ -251,3 +261,136 @@ func itoa(i int) string {
 }
 
 var _ = http.StatusOK
+
+// requestBodySchema returns the JSON request body schema of the operation a wire request matches.
+func (d *oaDoc) requestBodySchema(w *rt.WireReq) any {
+	u, err := url.Parse(w.URL)
+	if err != nil {
+		return nil
+	}
+	op, _, _ := d.operation(w.Method, u.EscapedPath())
+	if op == nil {
+		return nil
+	}
+	rb := d.deref(op["requestBody"])
+	if rb == nil {
+		return nil
+	}
+	content, _ := rb["content"].(map[string]any)
+	for ct, c := range content {
+		if strings.Contains(ct, "json") {
+			if cm, ok := c.(map[string]any); ok {
+				return cm["schema"]
+			}
+		}
+	}
+	return nil
+}
+
+// walk follows a site path (".a", "[0]", "{key}", "{<map key>}" steps) through a schema. It returns the node the
+// path ends at, or the reason the schema does not describe that location:
+// "map-key" (the path names a map key: OpenAPI 3.0 schemas cannot constrain keys), "free-form" (the path enters
+// a map documented as additionalProperties: true), "lost" (the schema has no such member).
+func (d *oaDoc) walk(schema any, path string) (map[string]any, string) {
+	cur := d.deref(schema)
+	i := 0
+	for i < len(path) {
+		if cur == nil {
+			return nil, "lost"
+		}
+		switch path[i] {
+		case '.':
+			j := i + 1
+			for j < len(path) && path[j] != '.' && path[j] != '[' && path[j] != '{' {
+				j++
+			}
+			props, _ := cur["properties"].(map[string]any)
+			nxt, ok := props[path[i+1:j]]
+			if !ok {
+				return nil, "lost"
+			}
+			cur = d.deref(nxt)
+			i = j
+		case '[':
+			j := strings.IndexByte(path[i:], ']')
+			if j < 0 {
+				return nil, "lost"
+			}
+			it, ok := cur["items"]
+			if !ok {
+				return nil, "lost"
+			}
+			cur = d.deref(it)
+			i += j + 1
+		case '{':
+			j := strings.IndexByte(path[i:], '}')
+			if j < 0 {
+				return nil, "lost"
+			}
+			if path[i:i+j+1] == "{key}" {
+				return nil, "map-key"
+			}
+			switch ap := cur["additionalProperties"].(type) {
+			case bool:
+				if ap {
+					return nil, "free-form"
+				}
+				return nil, "lost"
+			case nil:
+				if t, _ := cur["type"].(string); t == "object" || t == "" {
+					return nil, "free-form" // an object without properties/additionalProperties accepts any member
+				}
+				return nil, "lost"
+			default:
+				cur = d.deref(ap)
+			}
+			i += j + 1
+		default:
+			return nil, "lost"
+		}
+	}
+	if cur == nil {
+		return nil, "lost"
+	}
+	return cur, ""
+}
+
+// catchAllSpansSegments reports whether the request path extends a documented path template of the same verb
+// whose LAST segment is a parameter: the only way the server can have served it is a catch-all ("{*name}")
+// route, which the document renders as an ordinary single-segment parameter.
+func (d *oaDoc) catchAllSpansSegments(w *rt.WireReq) bool {
+	u, err := url.Parse(w.URL)
+	if err != nil {
+		return false
+	}
+	segs := strings.Split(strings.Trim(u.EscapedPath(), "/"), "/")
+	paths, _ := d.root["paths"].(map[string]any)
+	for tmpl, it := range paths {
+		im, _ := it.(map[string]any)
+		if _, ok := im[strings.ToLower(w.Method)]; !ok {
+			continue
+		}
+		ts := strings.Split(strings.Trim(tmpl, "/"), "/")
+		if len(ts) == 0 || len(segs) <= len(ts) {
+			continue
+		}
+		last := ts[len(ts)-1]
+		if !strings.HasPrefix(last, "{") || !strings.HasSuffix(last, "}") {
+			continue
+		}
+		ok := true
+		for i := 0; i < len(ts)-1; i++ {
+			if strings.HasPrefix(ts[i], "{") && strings.HasSuffix(ts[i], "}") {
+				continue
+			}
+			if ts[i] != segs[i] {
+				ok = false
+				break
+			}
+		}
+		if ok {
+			return true
+		}
+	}
+	return false
+}
